@@ -117,9 +117,10 @@ let do_history f line =
   match f with
   | [ts; hs; rs; cs] when rs <> "panic" ->
       let t = parse_term ts and t' = parse_term rs in
-      let calls = List.map (fun s -> match String.split_on_char ':' s with
+      (* a history may be empty (no call at all) *)
+      let calls = if hs = "" then [] else List.map (fun s -> match String.split_on_char ':' s with
           | [o; n] -> (order_of_string o, int_of_string n) | _ -> failwith "hist") (String.split_on_char ',' hs) in
-      let cnts = List.map int_of_string (String.split_on_char ',' cs) in
+      let cnts = if cs = "" then [] else List.map int_of_string (String.split_on_char ',' cs) in
       (match run_history big_fuel (List.map (fun (o, n) -> (o, nat_of_int n)) calls) t with
        | None -> bump counts "model-out-of-fuel"
        | Some (mt, mcs) ->
